@@ -68,4 +68,9 @@ PROPS = {
         "monitor 'shapes': every entry point (save_csv, save_csv_tensor, save_arrow, save_parquet, save_parquet_tensor) with element types f32/f64/i32/usize where the signature accepts them; shapes 0..6 x 0..40 x 0..8 (thorough: exhaustive, 2583 shapes x 5 entry points; quick: 500 seeded shapes biased to borders); values: NaN, +-inf, +-0, subnormals, extremes, random, or cells encoding (i,j,k); file read back with csv::Reader / arrow ipc FileReader / ParquetRecordBatchReader of the same crate versions: documented header/schema, one row per cell in documented order, labels = indices (save_parquet_tensor: observation, chain), values bit-exact after widening (CSV: parsed in the written element type). An Err return is counted, not judged. monitor 'faults': unwritable targets (missing directory, path is a directory, path below a regular file, empty path, /dev/full = ENOSPC on every write) with small and 96k-cell arrays: must be Err, never Ok or panic. Distinct by (entry, type, shape, encoding) and (entry, fault).",
         ["read-only directories are not used as a fault (the checks run as root)"],
     ),
+    "C02": P(
+        "shadow execution of HMC::step: targets = harness Gaussians (diagonal, dense SPD precision), Student-t, quartic, funnel (each as burn tensor code for the library and closed-form f64 value+gradient for the oracle) and the library's DiffableGaussian2D, Rosenbrock2D, RosenbrockND paired with closed forms; step sizes log-uniform 1e-3..10 (incl. unstable), L in 0..64, 1..32 chains, dim 1..16, (scalar, backend) in {f32,f64} x {NdArray<f32>,NdArray<f64>}, 5 consecutive steps per configuration. Per row the momenta and uniforms recorded by the hook are fed to an f64 velocity-Verlet reference: the new row must equal the old row bit for bit or the L-step endpoint within 50x the reference's sensitivity to 2-4 ulp input perturbations, and which one is dictated by ln u <= H-H' unless that margin is inside the tolerance; NaN energy difference => must stay. Plus: same seed with one row's start perturbed => all other rows bit-identical; verif_leapfrog(x,p) == reference endpoint and verif_leapfrog(x',-p') returns to (x,-p) when the reference round trip amplifies round-off by < 1e4. Distinct by (target, types, n_chains, L, case).",
+        ["Student-t (which uses log) is run with batch x dim < 32 because burn-ndarray's backward pass of log uses an approximate SIMD reciprocal for larger tensors (third-party, alignment dependent)",
+         "trajectories that leave the backend's floating-point range or amplify round-off by > 1e4 are inconclusive for the numerical comparisons"],
+    ),
 }
